@@ -59,6 +59,7 @@ func init() {
 	sh("C08", 90, 1200, runner.Part{Scenario: "simhost", Params: p("snapshot", "5", "overhead", "0", "pcrash", "6", "ppartition", "8", "ops", "40"), Share: 2},
 		runner.Part{Scenario: "simhost", Params: p("snapshot", "12", "overhead", "2", "psnapreq", "10", "pstop", "4", "compress", "1"), Share: 1},
 		runner.Part{Scenario: "simhost", Params: p("snapshot", "5", "sm", "3", "pcrash", "8", "pmember", "6", "hosts", "4"), Share: 1},
+		runner.Part{Scenario: "simhost", Params: p("snapshot", "5", "sm", "3", "smyield", "600", "pcrash", "15", "pmember", "15", "psnapreq", "20", "ptransfer", "10", "hosts", "3", "syncinterval", "20"), Share: 2},
 		runner.Part{Scenario: "l0/rsmtwin", Params: p("focus", "snapshot"), Share: 2},
 		runner.Part{Scenario: "l0/rsmtwin", Params: p("focus", "snapshot", "enum", "1"), Share: 1, MaxRuns: 1200})
 	sh("C20", 90, 1200, runner.Part{Scenario: "simhost/import", Params: p("pmember", "0"), Share: 2},
